@@ -247,6 +247,19 @@ func cmdCheck(args []string) int {
 				obligs = append(obligs, &Oblig{Func: fr.Name, Clause: "cover.requires", Props: []string{prop}, Hyps: fr.CoverHyps, Cover: true})
 			}
 		}
+		for _, fd := range cs.Frames {
+			if !hasProp(fd.Props) {
+				continue
+			}
+			ok, off := v.CheckFrame(cs, fd)
+			o := &Oblig{Func: cs.Label, Clause: "frame." + fd.Field, Props: fd.Props, Goal: BoolLit(ok), Sub: strings.Join(off, ", ")}
+			if ok {
+				o.Trivial = true
+			} else {
+				o.Goal = False
+			}
+			obligs = append(obligs, o)
+		}
 		for _, l := range cs.Lemmas {
 			if l.IsAxiom || !hasProp(l.Props) {
 				continue
